@@ -88,6 +88,8 @@ type eCase struct {
 	Rs    string      `json:"rs,omitempty"`    // relevant-status token: "-", pre:<d>, sub:<d>, eq:<d>
 	Resp  string      `json:"resp,omitempty"`  // response status passed to ProcessResponseHeaders (hex field)
 	Parts string      `json:"parts,omitempty"` // SecAuditLogParts (hex field)
+	Bl    string      `json:"bl,omitempty"`    // "1": SecRequestBodyAccess On, SecRequestBodyLimit 64, SecRequestBodyInMemoryLimit 16
+	Body  string      `json:"body,omitempty"`  // raw request body written before the first ProcessRequestBody (hex field); no body processor is selected
 	Mode  string      `json:"mode"`
 	Rules []eRule     `json:"rules"`
 	Get   [][2]string `json:"get"`
@@ -379,6 +381,9 @@ func renderRule(r eRule) string {
 func renderConfig(c *eCase) string {
 	var sb strings.Builder
 	sb.WriteString("SecRuleEngine " + c.Mode + "\nSecArgumentsLimit 8\n")
+	if c.Bl != "" {
+		sb.WriteString("SecRequestBodyAccess On\nSecRequestBodyLimit 64\nSecRequestBodyInMemoryLimit 16\n")
+	}
 	for _, r := range c.Rules {
 		sb.WriteString(renderRule(r))
 	}
@@ -455,12 +460,18 @@ func runEngCase(waf coraza.WAF, c *eCase, cbp *[]string) string {
 		tx.AddRequestHeader(name(p[0]), gen.Unfield(p[1]))
 	}
 	var outs []string
+	bodyWritten := false
 	for _, call := range c.Calls {
 		var it *types.Interruption
 		switch call {
 		case "h1":
 			it = tx.ProcessRequestHeaders()
 		case "b2":
+			if c.Body != "" && !bodyWritten {
+				// within the limit: it does not interrupt and, with no body processor, feeds no variable the rules read
+				bodyWritten = true
+				tx.WriteRequestBody([]byte(gen.Unfield(c.Body)))
+			}
 			it, _ = tx.ProcessRequestBody()
 		case "h3":
 			code := 200
@@ -1172,9 +1183,19 @@ func init() {
 				g.Links = []eLink{l}
 				probe.Rules = append([]eRule{g}, probe.Rules...)
 			}
+			if c.r.Chance(0.3) {
+				// request bodies within SecRequestBodyLimit 64, the predecessor's usually above the in-memory limit 16 (spilled to a
+				// file): buffer state carried over to the probe would push it over the limit
+				probe.Bl = "1"
+				probe.Body = gen.Field(strings.Repeat("A", 1+c.r.Intn(58)))
+			}
 			pred := *probe
 			other := genEngCase(c.r, p)
 			pred.Get, pred.Post, pred.Hdr, pred.Calls = other.Get, other.Post, other.Hdr, other.Calls
+			if probe.Bl != "" {
+				pred.Body = gen.Field(strings.Repeat("B", 1+c.r.Intn(58)))
+				c.stats.Hit("bodies")
+			}
 			// the predecessor brings its own argument names (argument-limit accounting must not carry over)
 			for k := 0; k < 5; k++ {
 				pred.Get = append(pred.Get, [2]string{gen.Field("p" + strconv.Itoa(c.r.Intn(40))), gen.Field("v")})
